@@ -156,19 +156,19 @@ func postLimit(n int) time.Duration {
 
 // forkBomb: n cells, each with two references to the next one: 4 bytes per cell, 2^n paths from the root.
 func forkBomb(n int) []byte {
-	var c *boc.Cell
-	for i := 0; i < n; i++ {
-		p := boc.NewCell()
-		p.WriteUint(uint64(i), 8)
-		if c != nil {
-			p.AddRef(c)
-			p.AddRef(c)
-		}
-		c = p
+	// written by hand (n < 256), not by the library's serialiser: what the library does with such a DAG - parse, hash, print,
+	// serialise again - is what parseEvent observes under its watchdog
+	if n < 1 || n > 255 {
+		panic("forkBomb: 1..255 cells")
 	}
-	b, err := c.ToBoc()
-	if err != nil {
-		panic(err)
+	tot := 5*(n-1) + 3
+	b := []byte{0xb5, 0xee, 0x9c, 0x72, 0x01, 0x02, byte(n), 0x01, 0x00, byte(tot >> 8), byte(tot), 0x00}
+	for k := 0; k < n; k++ {
+		if k < n-1 {
+			b = append(b, 0x02, 0x02, byte(n-1-k), byte(k+1), byte(k+1))
+		} else {
+			b = append(b, 0x00, 0x02, byte(n-1-k))
+		}
 	}
 	return b
 }
@@ -253,6 +253,9 @@ func adversarial() [][]byte {
 		h("b5ee9c72010101010004002901e1"), // pruned, mask 1, 1 byte
 		h("b5ee9c7201010101000300100000"), // with-hashes flag, no room for hashes
 		h("b5ee9c7201010101000300070000"), // 7 references
+		// a non-zero "absent" counter: references into [cells, cells+absent), just beyond it, and a valid bag that merely announces one
+		h("b5ee9c72010102010107000102aa020002bb"), h("b5ee9c72010102010107000102aa030002bb"), h("b5ee9c72010102010107000102aa010002bb"),
+		h("b5ee9c7201010201ff07000102aa800002bb"), h("b5ee9c720101010101030001020000"[:28] + "aa00"),
 		h("68ff65f3010101000003000000"), h("acc3a72801010100000300000000000000"),
 		h("b5ee9c72c1010101000200000000000000"), // crc flag, wrong crc
 		h("b5ee9c7241010100020000004cacb9cd"),
